@@ -130,6 +130,26 @@ pub fn generate(seed: u64, index: u64, cart_type: u8, rom_code: u8) -> Program {
     }
   }
 
+  // ---- "hop" routine at 0x4100 in every bank: one single block that does bank-specific
+  // work, picks the next bank and leaves through the work-RAM trampoline, which maps that
+  // bank and jumps to 0x4100 again (code in RAM is never translated: the same banked
+  // address is entered twice in a row with nothing but a bank switch in between)
+  let hop_mask = (banks.min(32).max(2) - 1) as u8;
+  for bank in 1..banks {
+    let mut a = Asm::new(0x4100);
+    for _ in 0..(bank % 3) {
+      a.b(&[0x1c]); // INC E
+    }
+    a.ld_a((bank as u8).wrapping_mul(13) ^ 0x5a);
+    a.b(&[0x81, 0x4f]); // ADD A,C; LD C,A
+    a.ld_hl(0xc0f1);
+    a.b(&[0x7e, 0xc6, 1 + 2 * (bank % 4) as u8, 0xe6, hop_mask, 0x77]); // LD A,(HL); ADD A,step; AND mask; LD (HL),A
+    a.ld_hl(0x4100);
+    a.jp(0xc180);
+    let off = bank * 0x4000 + 0x0100;
+    image[off..off + a.bytes.len()].copy_from_slice(&a.bytes);
+  }
+
   // ---- subroutines in bank 0 from 0x1000
   let mut subs: Vec<u16> = Vec::new();
   let mut sub_asm = Asm::new(0x1000);
@@ -176,6 +196,11 @@ pub fn generate(seed: u64, index: u64, cart_type: u8, rom_code: u8) -> Program {
     sub_asm.b(&[0xc9]);
   }
   let dma_routine_len = sub_asm.here() - dma_routine_src;
+  // bank-switch trampoline, to be copied to work RAM (0xC180): maps the bank in A, counts
+  // a hop down at 0xC0F0, returns when it reaches zero, else jumps to HL
+  let tramp_src = sub_asm.here();
+  sub_asm.b(&[0xea, 0x00, 0x21, 0xfa, 0xf0, 0xc0, 0x3d, 0xea, 0xf0, 0xc0, 0xc8, 0xe9]);
+  let tramp_len = sub_asm.here() - tramp_src;
   image[0x1000..0x1000 + sub_asm.bytes.len()].copy_from_slice(&sub_asm.bytes);
 
   // ---- interrupt handlers at the vectors
@@ -259,7 +284,7 @@ pub fn generate(seed: u64, index: u64, cart_type: u8, rom_code: u8) -> Program {
   a.b(&[0xf3]); // DI
   a.b(&[0x31, 0xfe, 0xff]); // LD SP,0xFFFE
   // copy the work-RAM routine to 0xC100 and the DMA routine to 0xFF80
-  for (src, dst, len) in [(wram_routine_src, 0xc100u16, wram_routine_len), (dma_routine_src, 0xff80u16, dma_routine_len)].iter() {
+  for (src, dst, len) in [(wram_routine_src, 0xc100u16, wram_routine_len), (dma_routine_src, 0xff80u16, dma_routine_len), (tramp_src, 0xc180u16, tramp_len)].iter() {
     a.ld_hl(*src);
     a.b(&[0x11, *dst as u8, (*dst >> 8) as u8]); // LD DE,dst
     a.b(&[0x06, *len as u8]); // LD B,len
@@ -298,7 +323,21 @@ pub fn generate(seed: u64, index: u64, cart_type: u8, rom_code: u8) -> Program {
     if a.here() > 0x0e00 {
       break;
     }
-    match rng.below(22) {
+    match rng.below(24) {
+      22 | 23 => {
+        if banked && banks > 2 {
+          // a chain of hops: 0x4100 under bank after bank, switched by code in work RAM
+          a.ld_a(2 + rng.below(5) as u8);
+          a.ld_a_to(0xc0f0);
+          a.ld_a(1 + (rng.u8() & hop_mask & 0xfe));
+          a.ld_a_to(0xc0f1);
+          a.ld_hl(0x4100);
+          a.call(0xc180);
+          f.bank_switches += 1;
+          f.wram_calls += 1;
+          desc.push_str("hops ");
+        }
+      }
       14 => {
         // software interrupt request: IF written by the program
         a.ld_a(rng.u8() & 0x1f);
